@@ -38,6 +38,8 @@ theorem stats_of_counters (r r' : Run) (h : counters r' = counters r) (hs : Stat
   omega
 
 @[simp] theorem counters_emit (r : Run) (n : String) (p : Nat) : counters (r.emit n p) = counters r := rfl
+@[simp] theorem counters_emitSeen (r : Run) (n : String) (p : Nat) (o : Outcome) : counters (r.emitSeen n p o) = counters r := rfl
+@[simp] theorem counters_emitLast (r : Run) (n : String) (p : Nat) : counters (r.emitLast n p) = counters r := rfl
 @[simp] theorem counters_setFailed (r : Run) (p n : Nat) : counters (setFailed r p n) = counters r := rfl
 @[simp] theorem counters_exceeded (r : Run) (l : List Nat) : counters { r with exceeded := l } = counters r := rfl
 
@@ -46,7 +48,7 @@ theorem retryOnFailure_counters (pos : Nat) (m : Int) (rl : Bool) (a : List Cond
   unfold retryOnFailure
   simp only
   split <;>
-    simp only [apply_ite counters, counters_emit, counters_setFailed, counters_exceeded, ite_self]
+    simp only [apply_ite counters, counters_emit, counters_emitSeen, counters_setFailed, counters_exceeded, ite_self]
 
 theorem retryOnFailure_stats (pos : Nat) (m : Int) (rl : Bool) (a : List Cond) (res : PR) (r : Run) (hs : Stats r) :
     Stats (retryOnFailure pos m rl a res r).2 :=
@@ -82,7 +84,7 @@ theorem retry_preserves (pos : Nat) (m : Int) (rl : Bool) (h a : List Cond) (inn
               obtain ⟨_, rfl⟩ := hh; exact hs2
             · simp only [hd] at hh
               generalize hX : (({ (retryOnFailure pos m rl a res1.withFailure r1).2 with
-                  last := (retryOnFailure pos m rl a res1.withFailure r1).1.outcome }).emit "rp.onRetryScheduled" pos).trigger "rp.onRetryScheduled" = X at hh
+                  last := (retryOnFailure pos m rl a res1.withFailure r1).1.outcome }).emitLast "rp.onRetryScheduled" pos).trigger "rp.onRetryScheduled" = X at hh
               have hsX : Stats X := by rw [← hX]; exact stats_trigger _ _ hs2
               by_cases hx : X.isCanc = true
               · simp only [hx, if_true, Option.some.injEq, Prod.mk.injEq] at hh
@@ -90,7 +92,7 @@ theorem retry_preserves (pos : Nat) (m : Int) (rl : Bool) (h a : List Cond) (inn
               · simp only [hx] at hh
                 apply ih _ res r' hh
                 show _ = _
-                simp only [Run.emit]
+                simp only [Run.emitLast, Run.emitSeen]
                 have : X.attempts = 1 + X.retries + X.hedges := hsX
                 omega
           · simp only [hf, Option.some.injEq, Prod.mk.injEq] at hh
